@@ -40,7 +40,9 @@ Definition basename (s : bytes) : bytes := basename_aux s s.
 (* ------------------------------------------------------------------ patterns *)
 Inductive ptype := PSimple | PRegex | PGlob.
 Record patt := { pt_type : ptype; pt_str : bytes }.
-Record pitem := { pi_patt : patt; pi_mod : bytes; pi_pos : bool }.
+(* pi_exact: no "@module" was given - the default module (the main executable's file name) must be
+   the module's name, not just a prefix of it (after "fix: dynamic: a pattern without @module ...") *)
+Record pitem := { pi_patt : patt; pi_mod : bytes; pi_pos : bool; pi_exact : bool }.
 
 Record oracle := {
   o_regcomp : bytes -> bool;            (* regcomp(REG_NOSUB|REG_EXTENDED) succeeds *)
@@ -105,18 +107,25 @@ Definition parse_item (O : oracle) (def_mod : bytes) (t : ptype) (name : bytes) 
   let '(pat, modopt) := split_at name1 in
   {| pi_patt := init_filter_pattern O t pat;
      pi_mod := match modopt with Some m => m | None => def_mod end;
-     pi_pos := pos |}.
+     pi_pos := pos;
+     pi_exact := match modopt with Some _ => false | None => true end |}.
 
 Definition parse_pattern_list (O : oracle) (patch_funcs def_mod : bytes) (t : ptype) : list pitem :=
   map (parse_item O def_mod t) (split_semi patch_funcs []).
 
-(* the module test of match_pattern_list: pl->module is a prefix of basename(map->libname) or of
-   the soname *)
-Definition mod_applies (lib : bytes) (so : option bytes) (m : bytes) : bool :=
-  prefixb m (basename lib) || match so with Some s => prefixb m s | None => false end.
+(* the module test of match_pattern_list / match_pattern_module: a given "@module" is a prefix of
+   basename(map->libname) or of the soname; the default module must be equal to one of them.
+   [mod_applies_legacy]: the code as found compared the default module as a prefix too. *)
+Definition mod_applies_gen (exact : bool) (lib : bytes) (so : option bytes) (m : bytes) : bool :=
+  let cmp := if exact then bytes_eqb else prefixb in
+  cmp m (basename lib) || match so with Some s => cmp m s | None => false end.
+Definition mod_applies (lib : bytes) (so : option bytes) (p : pitem) : bool :=
+  mod_applies_gen (pi_exact p) lib so (pi_mod p).
+Definition mod_applies_legacy (lib : bytes) (so : option bytes) (p : pitem) : bool :=
+  mod_applies_gen false lib so (pi_mod p).
 
 Definition item_hits (O : oracle) (lib : bytes) (so : option bytes) (name : bytes) (p : pitem) : bool :=
-  mod_applies lib so (pi_mod p) && matches O (pi_patt p) name.
+  mod_applies lib so p && matches O (pi_patt p) name.
 
 (* match_pattern_list: the loop overwrites ret at every hit *)
 Definition match_pattern_list (O : oracle) (pl : list pitem) (lib : bytes) (so : option bytes)
@@ -127,7 +136,7 @@ Definition match_pattern_list (O : oracle) (pl : list pitem) (lib : bytes) (so :
 (* match_pattern_module (mcount_dynamic_dlopen): a dlopen()ed library is looked at only if some
    pattern's module is a prefix of its file name or soname *)
 Definition match_pattern_module (pl : list pitem) (path : bytes) (so : option bytes) : bool :=
-  existsb (fun p => mod_applies path so (pi_mod p)) pl.
+  existsb (fun p => mod_applies path so p) pl.
 
 (* the command line: -P x  appends "x", -U x appends "!x", joined by ';' (uftrace.c) *)
 Inductive cliopt := OptP (arg : bytes) | OptU (arg : bytes).
@@ -286,11 +295,34 @@ Definition UINT_MAX : N := 4294967295.
 Definition fake_sym (a : N) : sym :=
   {| s_addr := a; s_size := UINT_MAX; s_type := 0; s_name := 60 :: hex a ++ [62] |}.
 
-Definition patch_patchable_func_matched (O : oracle) (c : cfg) (syms : list sym) (targets : list N)
-           (st : mem * stats) : mem * stats :=
+(* which symbol a location of __patchable_function_entries stands for.  The symbol containing it; else
+   (after "fix: dynamic: a patchable location in front of a function ...") the symbol that begins 1..4
+   bytes behind it (-fpatchable-function-entry=N,M records the location M bytes before the entry);
+   None = no symbol: a fake one named after the address.
+   [resolve_target_legacy]: the code as found went straight to the fake symbol. *)
+Definition sym_starting_at (syms : list sym) (a : N) : option sym :=
+  match find_sym syms a with
+  | Some s => if s_addr s =? a then Some s else None
+  | None => None
+  end.
+Fixpoint first_some {A} (l : list (option A)) : option A :=
+  match l with
+  | [] => None
+  | Some x :: _ => Some x
+  | None :: r => first_some r
+  end.
+Definition resolve_target_legacy (syms : list sym) (a : N) : option sym := find_sym syms a.
+Definition resolve_target (syms : list sym) (a : N) : option sym :=
+  match find_sym syms a with
+  | Some s => Some s
+  | None => first_some (map (fun k => sym_starting_at syms (a + k)) [1; 2; 3; 4])
+  end.
+
+Definition patchable_loop (resolve : list sym -> N -> option sym) (O : oracle) (c : cfg) (syms : list sym)
+           (targets : list N) (st : mem * stats) : mem * stats :=
   let step (acc : mem * stats * bool) (a : N) :=
     let '(st, found) := acc in
-    match find_sym syms a with
+    match resolve syms a with
     | None => (visit O c st (fake_sym a), true)
     | Some s => if skip_sym s then acc else (visit O c st s, true)
     end in
@@ -298,6 +330,8 @@ Definition patch_patchable_func_matched (O : oracle) (c : cfg) (syms : list sym)
   (m, if found then k
       else {| st_total := st_total k; st_failed := st_failed k; st_skipped := st_skipped k;
               st_nomatch := st_nomatch k + 1 |}).
+Definition patch_patchable_func_matched := patchable_loop resolve_target.
+Definition patch_patchable_func_matched_legacy := patchable_loop resolve_target_legacy.
 
 Definition patch_func_matched (O : oracle) (c : cfg) (syms : list sym) (targets : list N)
            (st : mem * stats) : mem * stats :=
@@ -456,7 +490,7 @@ Definition call_target (insn : N) (code : bytes) : option Z :=
    section) the symbol each listed address falls into / a fake one for a symbol-less address *)
 Definition visited (c : cfg) (syms : list sym) (targets : list N) : list sym :=
   match c_ty c with
-  | DPatchable => flat_map (fun a => match find_sym syms a with
+  | DPatchable => flat_map (fun a => match resolve_target syms a with
                                      | Some s => if skip_sym s then [] else [s]
                                      | None => [fake_sym a]
                                      end) targets
@@ -529,6 +563,36 @@ Definition ok_pages (ds : list mdi) (cps : list code_page) (before after : pmap)
   forallb (fun pg => if touched ds cps pg then perm_eqb (after pg) P_RX
                      else perm_eqb (after pg) (before pg)) pages.
 
+(* ------------------------------------------------------------------ executing a function entry *)
+(* A three-instruction machine, just enough to say what a patched entry does when it is executed:
+   the 5-byte NOP forms, `call rel32`, the trampoline's `jmp *1(%rip)`, and __fentry__ as an oracle
+   step that returns to the address on top of the stack with everything else preserved (that it does so
+   is property C01's subject).  Stack slots are 8-byte words addressed by their address. *)
+Record mstate := { st_rip : Z; st_rsp : Z; st_stk : Z -> Z }.
+Inductive insn := INop5 | ICall (target : Z) | IJmpInd (target : Z) | IOther.
+Definition decode (m : mem) (rip : Z) : insn :=
+  let a := Z.to_N rip in
+  if is_nop_sig (rd m a 5) then INop5
+  else match call_target a (rd m a 5) with
+       | Some t => ICall t
+       | None => if bytes_eqb (rd m a 8) trampoline_head then IJmpInd (le_val (rd m (a + 8) 8)) else IOther
+       end.
+Definition step (m : mem) (fentry : Z) (s : mstate) : option mstate :=
+  if (st_rip s =? fentry)%Z then
+    Some {| st_rip := st_stk s (st_rsp s); st_rsp := (st_rsp s + 8)%Z; st_stk := st_stk s |}
+  else match decode m (st_rip s) with
+       | INop5 => Some {| st_rip := (st_rip s + 5)%Z; st_rsp := st_rsp s; st_stk := st_stk s |}
+       | ICall t => Some {| st_rip := t; st_rsp := (st_rsp s - 8)%Z;
+                            st_stk := fun a => if (a =? st_rsp s - 8)%Z then (st_rip s + 5)%Z else st_stk s a |}
+       | IJmpInd t => Some {| st_rip := t; st_rsp := st_rsp s; st_stk := st_stk s |}
+       | IOther => None
+       end.
+Fixpoint steps (n : nat) (m : mem) (fentry : Z) (s : mstate) : option mstate :=
+  match n with
+  | O => Some s
+  | S n' => match step m fentry s with Some s' => steps n' m fentry s' | None => None end
+  end.
+
 (* ------------------------------------------------------------------ correspondence cases *)
 Fixpoint assoc1 (tbl : list (bytes * bool)) (p : bytes) : bool :=
   match tbl with
@@ -547,7 +611,7 @@ Definition ptype_eqb (a b : ptype) : bool :=
   match a, b with PSimple, PSimple | PRegex, PRegex | PGlob, PGlob => true | _, _ => false end.
 Definition pitem_eqb (a b : pitem) : bool :=
   ptype_eqb (pt_type (pi_patt a)) (pt_type (pi_patt b)) && bytes_eqb (pt_str (pi_patt a)) (pt_str (pi_patt b))
-  && bytes_eqb (pi_mod a) (pi_mod b) && Bool.eqb (pi_pos a) (pi_pos b).
+  && bytes_eqb (pi_mod a) (pi_mod b) && Bool.eqb (pi_pos a) (pi_pos b) && Bool.eqb (pi_exact a) (pi_exact b).
 Fixpoint list_eqb {A B} (f : A -> B -> bool) (a : list A) (b : list B) : bool :=
   match a, b with
   | [], [] => true
@@ -581,14 +645,15 @@ Definition p_agrees (c : pcase) : bool :=
 Fixpoint last_hit_bits (items : list pitem) (bits : list bool) (lib : bytes) (so : option bytes)
          (acc : option pitem) : option pitem :=
   match items, bits with
-  | p :: r, b :: rb => last_hit_bits r rb lib so (if mod_applies lib so (pi_mod p) && b then Some p else acc)
+  | p :: r, b :: rb => last_hit_bits r rb lib so (if mod_applies lib so p && b then Some p else acc)
   | _, _ => acc
   end.
 Definition cli_item_ok (defmod : bytes) (o : cliopt) (p : pitem) : bool :=
   let '(arg, pos) := match o with OptP a => (a, true) | OptU a => (a, false) end in
   let '(pat, modopt) := split_at arg in
   Bool.eqb (pi_pos p) pos && bytes_eqb (pt_str (pi_patt p)) pat
-  && bytes_eqb (pi_mod p) (match modopt with Some m => m | None => defmod end).
+  && bytes_eqb (pi_mod p) (match modopt with Some m => m | None => defmod end)
+  && Bool.eqb (pi_exact p) (match modopt with Some _ => false | None => true end).
 Definition p_ok (c : pcase) : bool :=
   forallb (fun q => (q_ret q =? polarity (last_hit_bits (p_items c) (q_bits q) (q_lib q) (q_so q) None))%Z
                     && Nat.eqb (length (q_bits q)) (length (p_items c)))
@@ -599,7 +664,7 @@ Definition p_ok (c : pcase) : bool :=
      end
   (* a library is skipped exactly when no item's module applies to it *)
   && forallb (fun x => let '(path, so, r) := x in
-                       Bool.eqb (existsb (fun p => mod_applies path so (pi_mod p)) (p_items c)) r) (p_mods c).
+                       Bool.eqb (existsb (fun p => mod_applies path so p) (p_items c)) r) (p_mods c).
 
 Definition dyntype_of (n : N) : dyntype :=
   match n with 1 => DPg | 2 => DFentry | 3 => DFentryNop | 4 => DXray | 5 => DPatchable | _ => DNone end.
@@ -671,6 +736,24 @@ Definition u_layout (u : ucase) : bool :=
 (* the property on the implementation's outputs *)
 (* a module whose trampoline cannot be set up (the page behind the text is needed and occupied) cannot be
    patched: it must be left byte-for-byte untouched, its page permissions unchanged, the process running *)
+(* executing every entry the implementation turned into a call, on the implementation's own bytes
+   (window after the update + the 16 trampoline bytes it wrote, whose target was checked to be
+   __fentry__): call, jmp, return must come back to entry+5 with the stack pointer unchanged *)
+Definition FENTRY_ADDR : Z := 140737488355328.
+Definition u_exec_ok (u : ucase) : bool :=
+  let c := u_cfg u (i_tramp u) in
+  let m0 := mem_of (u_wbase u) (u_before u) in
+  let mem_after := wr (mem_of (u_wbase u) (i_after u)) (Z.to_N (i_tramp u)) (i_thead u ++ le_bytes 8 FENTRY_ADDR) in
+  forallb (fun s => match spec_change (u_oracle u) c m0 s with
+                    | Some (e, 232 :: _) =>
+                        match steps 3 mem_after FENTRY_ADDR
+                                    {| st_rip := Z.of_N e; st_rsp := 8000000; st_stk := fun _ => 0%Z |} with
+                        | Some s3 => (st_rip s3 =? Z.of_N e + 5)%Z && (st_rsp s3 =? 8000000)%Z
+                        | None => false
+                        end
+                    | _ => true
+                    end) (visited c (u_syms u) (u_targets u)).
+
 Definition u_ok_unpatchable (u : ucase) : bool :=
   negb (i_fatal u) && (i_canary u =? 0) && bytes_eqb (u_before u) (i_after u)
   && perm_list_eqb (u_perms u) (i_perm2 u).
@@ -688,6 +771,7 @@ Definition u_ok_patchable (u : ucase) : bool :=
   && in_range (u_text_addr u) (i_tsize u) (page_of (i_tramp u))
   && in_range (u_text_addr u) (i_tsize u) (page_of (i_tramp u + 15))
   && ok_update (u_oracle u) (u_cfg u (i_tramp u)) (u_syms u) (u_targets u) (u_wbase u) (u_before u) (i_after u)
+  && u_exec_ok u
   && ok_pages [d] [] (pm_of (u_perms u)) (pm_of (i_perm2 u)) (map Z.of_nat (seq 0 np))
   && forallb (perm_eqb P_RX) (i_cp_after u).
 Definition u_ok (u : ucase) : bool :=
@@ -762,10 +846,22 @@ Definition requested_min (v : Z) : N := if v <=? 0 then 0%N else Z.to_N v.
 Local Close Scope Z_scope.
 
 (* ------------------------------------------------------------------ end-to-end cases *)
+(* which modules mcount_dynamic_update / mcount_dynamic_dlopen look at: the main executable always; a
+   library loaded at start-up only when some pattern carries an '@' (needs_modules); a dlopen()ed library
+   when match_pattern_module accepts it *)
+Inductive mkind := MMain | MLoadLib | MDlopen.
+Definition needs_modules (patch_funcs : bytes) : bool := memb 64 patch_funcs.
+Definition module_visited (k : mkind) (patch_funcs : bytes) (pl : list pitem) (lib : bytes) (so : option bytes) : bool :=
+  match k with
+  | MMain => true
+  | MLoadLib => needs_modules patch_funcs
+  | MDlopen => match_pattern_module pl lib so
+  end.
+
 Record ecase := {
   e_ptype : ptype; e_funcs : bytes; e_defmod : bytes;
   e_regok : list (bytes * bool); e_tbl : list (bytes * bytes * bool);
-  e_sect : elf_sect; e_chk : Z; e_zarg : Z; e_lib : bytes;
+  e_sect : elf_sect; e_chk : Z; e_zarg : Z; e_lib : bytes; e_so : option bytes; e_kind : mkind;
   e_text_addr : Z; e_text_size : Z; e_next_mapped : bool;
   e_wbase : N; e_before : bytes; e_syms : list sym; e_targets : list N;
   (* observed on the real uftrace record run *)
@@ -779,7 +875,10 @@ Definition e_type (e : ecase) : dyntype :=
   find_module_type true (e_sect e) (chk_type (e_chk e)) (mem_of (e_wbase e) (e_before e)) (e_syms e).
 Definition e_cfg (e : ecase) (tramp : Z) (mn : N) : cfg :=
   {| c_pats := parse_pattern_list (e_oracle e) (e_funcs e) (e_defmod e) (e_ptype e);
-     c_lib := e_lib e; c_so := None; c_ty := e_type e; c_tramp := tramp; c_min := mn |}.
+     c_lib := e_lib e; c_so := e_so e; c_ty := e_type e; c_tramp := tramp; c_min := mn |}.
+Definition e_visited (e : ecase) : bool :=
+  module_visited (e_kind e) (e_funcs e) (parse_pattern_list (e_oracle e) (e_funcs e) (e_defmod e) (e_ptype e))
+                 (e_lib e) (e_so e).
 Definition optZ_eqb (a b : option Z) : bool :=
   match a, b with None, None => true | Some x, Some y => (x =? y)%Z | _, _ => false end.
 Definition e_pm (e : ecase) : pmap :=
@@ -790,6 +889,7 @@ Definition names_subset (a b : list bytes) : bool := forallb (fun n => existsb (
 Definition names_eq (a b : list bytes) : bool := names_subset a b && names_subset b a.
 
 Definition e_model (fixed : bool) (e : ecase) : option (bytes * list bytes) :=
+  if negb (e_visited e) then Some (e_before e, []) else
   match setup_trampoline_v fixed (e_pm e)
           {| d_text_addr := e_text_addr e; d_text_size := e_text_size e; d_tramp := 0; d_ty := e_type e |} with
   | SetupFatal => None
